@@ -1,4 +1,4 @@
-import GdVerif.Lemmas.Gs3Exchange
+import GdVerif.Lemmas.Gs3Whole
 /-
   C09 (GameSpy 3) — requests are the protocol's, go to the right port, and echo the challenge.
 
@@ -99,6 +99,19 @@ bytes gives `c` back, for every i32 `c` -/
 theorem C09_gs3_challenge_bytes (c : Int) (hlo : -(2 ^ 31 : Int) ≤ c) (hhi : c < 2 ^ 31) :
     (readSigned .big 4).run (natBE 4 (ofSigned 32 c)) = .ok c :=
   (decodes_signed .big 4 (by omega) c (by simpa using hlo) (by simpa using hhi)).run
+
+/-- Nothing else is sent: in the whole exchange with the SPEC's server for a well-formed state
+(whatever the arrival order of the data packets), the datagrams `query` and `query_vars` send are
+exactly the SPEC's request list — the handshake request and one data request carrying the challenge. -/
+theorem C09_gs3_nothing_else (cfg : Spec.Config) (st : Spec.State) (h : Spec.wf cfg st = true) (port retries : Nat)
+    (arrival : List Bytes) (harr : arrival.Perm (Spec.dataPackets cfg st)) :
+    sentOf (query port retries (Net.init [.opened ((Spec.handshakeReply cfg.challenge :: arrival).map .data)] [])).2.log
+      = Spec.requests cfg
+    ∧ sentOf (queryVars port retries (Net.init [.opened ((Spec.handshakeReply cfg.challenge :: arrival).map .data)] [])).2.log
+      = Spec.requests cfg := by
+  rw [query_eq, queryVars_eq]
+  exact ⟨(exchange_spec cfg st h port retries buildResponse arrival harr).2,
+    (exchange_spec cfg st h port retries buildVars arrival harr).2⟩
 
 -- non-vacuity: a negative challenge, and the one that does not fit the buffer with its NUL
 example : Spec.dataRequest (-2) = [0xFE, 0xFD, 0, 0, 0, 0, 1, 0xFF, 0xFF, 0xFF, 0xFE, 0xFF, 0xFF, 0xFF, 0x01] := by decide
